@@ -75,8 +75,8 @@ def run_case(case, g, tier, res):
 
         def h(c):
             ll = 2 if wf == "list" else 0
-            a, ia = sym_descriptor_state(c, g, "a", with_weight=wf != "none", list_len=ll)
-            b, ib = sym_descriptor_state(c, g, "b", with_weight=wf != "none", list_len=ll)
+            a, ia = sym_descriptor_state(c, g, "a", with_weight=wf != "none", list_len=ll, neg_weights=True)  # "[<|-1|]" parses: not generable, still a descriptor
+            b, ib = sym_descriptor_state(c, g, "b", with_weight=wf != "none", list_len=ll, neg_weights=True)
             r1 = a.is_compatible(b)
             r2 = b.is_compatible(a)
             f = rule_formula(ia, ib)
